@@ -15,6 +15,10 @@ finally bodies are not protected by their own try, as in Python).  Anything unex
 ambiguous, a ``finally`` that returns/breaks, an exception expression that is not a name, ``attach_shm`` not being the
 lambda around ``_maybe_attach_shm`` -- raises TranslationBroken.
 
+The socket path is selected by the value ``serve_one`` passes for ``contain_decode_errors`` (or the declared default if
+it passes none): ``_read_request`` branches on that flag, and only the ``_decode_request`` call that runs for this value
+contributes its enclosing handlers (gen_contain_decode_errors records the value).
+
 Also regenerated: the metadata key constants of vgi_rpc/metadata.py the request reader looks at (gen_K_*), and
 TRANSPORT_OPTIONS_METHOD_NAME.
 
@@ -76,8 +80,70 @@ def method_call(attr: str, recv: str | None = None) -> Matcher:
     return m
 
 
-def raise_of(cls: str, nth: int) -> tuple[Matcher, int]:
-    return (lambda n: isinstance(n, ast.Raise) and isinstance(n.exc, ast.Call) and _dotted(n.exc.func) == cls), nth
+def if_raising(cls: str, mentions: str) -> Matcher:
+    """An ``if`` statement whose test mentions the name/attribute ``mentions`` and whose body starts with ``raise cls(...)``."""
+
+    def m(n: ast.AST) -> bool:
+        if not (isinstance(n, ast.If) and n.body and isinstance(n.body[0], ast.Raise)):
+            return False
+        r = n.body[0]
+        if not (isinstance(r.exc, ast.Call) and _dotted(r.exc.func) == cls):
+            return False
+        return any((isinstance(x, ast.Name) and x.id == mentions) or (isinstance(x, ast.Attribute) and x.attr == mentions) for x in ast.walk(n.test))
+
+    return m
+
+
+FLAG = "contain_decode_errors"
+
+
+def _effective_flag(rr: ast.FunctionDef, passed: ast.expr | None) -> bool | None:
+    """Value of ``contain_decode_errors`` on the socket path: what serve_one passes, else the declared default.
+    None = _read_request has no such parameter."""
+    params = {a.arg: d for a, d in zip(rr.args.kwonlyargs, rr.args.kw_defaults)}
+    pos = rr.args.posonlyargs + rr.args.args
+    for a, d in zip(pos[len(pos) - len(rr.args.defaults):], rr.args.defaults):
+        params[a.arg] = d
+    if FLAG not in params and FLAG not in [a.arg for a in pos]:
+        if passed is not None:
+            raise TranslationBroken("serve_one", f"passes {FLAG} but _read_request does not take it")
+        return None
+    v = passed if passed is not None else params.get(FLAG)
+    if not (isinstance(v, ast.Constant) and isinstance(v.value, bool)):
+        raise TranslationBroken("serve_one", f"{FLAG} is not a literal True/False on the socket path")
+    return v.value
+
+
+def _active_decode_call(rr: ast.FunctionDef, flag: bool | None) -> ast.Call:
+    """The call of _decode_request that runs on the socket path, given the value of the flag."""
+    is_dec = call_to("_decode_request")
+
+    def calls_in(stmts: list[ast.stmt]) -> list[ast.Call]:
+        return [n for st in stmts for n in ast.walk(st) if is_dec(n)]  # type: ignore[misc]
+
+    if flag is None:
+        found = calls_in(rr.body)
+        if len(found) != 1:
+            raise TranslationBroken("_read_request", f"expected exactly one call of _decode_request, found {len(found)}")
+        return found[0]
+    uses = [n for n in ast.walk(rr) if isinstance(n, ast.Name) and n.id == FLAG]
+    ifs = [(i, st) for i, st in enumerate(rr.body) if isinstance(st, ast.If) and any(isinstance(x, ast.Name) and x.id == FLAG for x in ast.walk(st.test))]
+    if len(ifs) != 1 or len(uses) != 1:
+        raise TranslationBroken("_read_request", f"{FLAG} must be used exactly once, as the test of one top-level `if`")
+    i, st = ifs[0]
+    t = st.test
+    if isinstance(t, ast.Name):
+        take_body = flag
+    elif isinstance(t, ast.UnaryOp) and isinstance(t.op, ast.Not) and isinstance(t.operand, ast.Name):
+        take_body = not flag
+    else:
+        raise TranslationBroken(f"_read_request:{st.lineno}", f"test on {FLAG} is neither `{FLAG}` nor `not {FLAG}`")
+    taken = st.body if take_body else st.orelse
+    terminates = bool(taken) and isinstance(taken[-1], (ast.Return, ast.Raise))
+    active = calls_in(rr.body[:i]) + calls_in(taken) + ([] if terminates else calls_in(rr.body[i + 1:]))
+    if len(active) != 1:
+        raise TranslationBroken("_read_request", f"expected exactly one _decode_request call on the socket path, found {len(active)}")
+    return active[0]
 
 
 def _is_suppress(w: ast.With) -> list[str] | None:
@@ -171,7 +237,7 @@ def _locate(fn: ast.FunctionDef, match: Matcher, nth: int | None, site: str) -> 
 # ---------------------------------------------------------------------------------------------------------------
 # the sites
 # ---------------------------------------------------------------------------------------------------------------
-def site_stacks(repo: Path) -> list[tuple[str, list[tuple[str, Level]]]]:
+def site_stacks(repo: Path) -> tuple[list[tuple[str, list[tuple[str, Level]]]], bool | None]:
     server = repo / "vgi_rpc" / "rpc" / "_server.py"
     wire = repo / "vgi_rpc" / "rpc" / "_wire.py"
     F = {**_functions(wire), **_functions(server)}
@@ -188,22 +254,25 @@ def site_stacks(repo: Path) -> list[tuple[str, list[tuple[str, Level]]]]:
     lam = kw.get("attach_shm")
     if not (isinstance(lam, ast.Lambda) and isinstance(lam.body, ast.Call) and _dotted(lam.body.func) == "_maybe_attach_shm"):
         raise TranslationBroken("serve_one", "attach_shm is not `lambda md: _maybe_attach_shm(...)`")
-    if set(kw) != {"shm", "attach_shm"} or len(calls[0].args) != 3:
+    if not ({"shm", "attach_shm"} <= set(kw) <= {"shm", "attach_shm", FLAG}) or len(calls[0].args) != 3:
         raise TranslationBroken("serve_one", "unexpected argument shape of the _read_request call")
+    flag = _effective_flag(F["_read_request"], kw.get(FLAG))
 
     Hop = tuple[str, Matcher, int | None]
     base: list[Hop] = [("RpcServer.serve", call_to("self.serve_one"), None)]
     rr: list[Hop] = base + [("RpcServer.serve_one", call_to("_read_request"), None)]
     if "_decode_request" in F:
         dec_name = "_decode_request"
-        dec: list[Hop] = rr + [("_read_request", call_to("_decode_request"), None)]
-        # the first half of _read_request must not do anything but read and drain before delegating
+        active = _active_decode_call(F["_read_request"], flag)
+        dec: list[Hop] = rr + [("_read_request", (lambda n: n is active), None)]
     else:
+        if flag is not None:
+            raise TranslationBroken("_read_request", f"{FLAG} exists but there is no _decode_request")
         dec_name = "_read_request"
         dec = rr
-    r1 = raise_of("RpcError", 0)
-    r2 = raise_of("RpcError", 2)  # 0: missing method, 1: undecodable method (inside a handler), 2: row count
-    v1 = raise_of("VersionError", 0)
+    r1 = (if_raising("RpcError", "method_name_bytes"), None)   # `if method_name_bytes is None: raise RpcError`
+    r2 = (if_raising("RpcError", "num_rows"), None)            # the row-count guard
+    v1 = (if_raising("VersionError", "version_bytes"), 0)      # missing / unsupported request_version (first of two)
     attach_in_maybe: Hop = ("_maybe_attach_shm", call_to("ShmSegment.attach"), None)
     int_in_maybe: Hop = ("_maybe_attach_shm", call_to("int"), None)
     sites: list[tuple[str, list[Hop]]] = [
@@ -251,7 +320,7 @@ def site_stacks(repo: Path) -> list[tuple[str, list[tuple[str, Level]]]]:
         if not in_dec:
             continue
         m, nth = in_dec[-1]
-        nodes = [n for n in ast.walk(order_fn) if m(n)]
+        nodes = sorted((n for n in ast.walk(order_fn) if m(n)), key=lambda n: (n.lineno, n.col_offset))
         first_line[name] = nodes[nth or 0].lineno
     want = ["meta_rpc", "meta_version", "method_decode", "tp_decode", "ts_decode", "ext", "rr_attach", "resolve_shm", "rows", "as_py", "release", "close_owned"]
     lines = [first_line[w] for w in want]
@@ -264,13 +333,13 @@ def site_stacks(repo: Path) -> list[tuple[str, list[tuple[str, Level]]]]:
     if pre != sorted(pre):
         raise TranslationBroken("_read_request", "open/read/drain are not in the modelled order")
     if "_decode_request" in F:
-        dl = [n for n in ast.walk(F["_read_request"]) if call_to("_decode_request")(n)][0].lineno
+        dl = active.lineno
         if dl < pre[-1]:
             raise TranslationBroken("_read_request", "_decode_request is called before the request stream is drained")
     else:
         if first_line["meta_rpc"] < pre[-1]:
             raise TranslationBroken("_read_request", "request validation starts before the request stream is drained")
-    return out
+    return out, flag
 
 
 def constants(repo: Path) -> list[tuple[str, bytes]]:
@@ -310,7 +379,10 @@ def module(repo: Path) -> str:
     lines.append("")
     lines.append("Definition gen_stacks : list (string * list (string * list (list string * (bool * string)))) := [")
     rows = []
-    for name, stack in site_stacks(repo):
+    stacks, flag = site_stacks(repo)
+    lines.insert(-2, "(* contain_decode_errors as it reaches _read_request on the socket path (None = no such parameter) *)")
+    lines.insert(-2, "Definition gen_contain_decode_errors : option bool := " + ("None" if flag is None else f"Some {str(flag).lower()}") + ".")
+    for name, stack in stacks:
         lv = "; ".join(
             "(" + q(fn) + ", [" + "; ".join("([" + "; ".join(q(c) for c in cls) + "], (" + ("true" if w else "false") + ", " + q(end) + "))" for cls, w, end in lvl) + "])"
             for fn, lvl in stack
